@@ -176,3 +176,24 @@ def run(ctx):
         v4 = [a for a in av if calls_in(a, r'Ipv4Addr::octets$') and 'V4' in short(a)]
         v6 = [a for a in av if calls_in(a, r'Ipv6Addr::octets$') and 'V6' in short(a)]
         rep.check(r2, okp and len(v4) == 1 and len(v6) == 1, 'mapped:port-and-address-bytes', 'port high byte then low byte; address = octets() of the variant payload (4 or 16 bytes)')
+
+    r3 = rep.rule('C15-R3', 'the converse: a parsable message of class request / method binding from a known client address is always answered, and every CHANGE-REQUEST attribute reaches the change-port test', floor=2)
+    from rules import silence
+    silence.run_for(ctx, r3, ['proto::stun::repl'])
+    # inside the attribute loop: from the ChangeRequest arm the change_port test is reached before the next iteration
+    cp = [bi for bi in range(rp.n) if rp.switch_edges(bi) and not rp.blocks[bi]['cleanup'] and short(rp.switch_edges(bi)[0]).endswith('.change_port')]
+    crq = rp.gate_edges(lambda d, v, vals: isinstance(d, tuple) and d[0] == 'discr' and 'next(' in short(d) and 'attributes' in short(rp.through_refs(d, 0)) and False)
+    arm = []
+    for bi in range(rp.n):
+        se = rp.switch_edges(bi)
+        if se and not rp.blocks[bi]['cleanup'] and isinstance(se[0], tuple) and se[0][0] == 'discr' and 'next(' in short(se[0]) and short(se[0]).startswith('discr(entry:*(next('):
+            variants = [v['name'] for v in F.adts[S + 'StunAttribute']['variants']]
+            for (s_, v) in se[1]:
+                if v is not None and v < len(variants) and variants[v] == 'ChangeRequest':
+                    arm.append(s_)
+    nx = [b for b, t in rp.calls(r'::next$') if 'attributes' in short(rp.through_refs(rp.argv(b, 0), b))]
+    ok = len(cp) == 1 and len(arm) == 1 and len(nx) == 1
+    if ok:
+        r_ = rp.reachable(arm[0], removed_blocks=cp)
+        ok = nx[0] not in r_ and not any(x in r_ for x in rp.return_blocks())
+    rep.check(r3, ok, 'change-port-test-always-reached', 'from the CHANGE-REQUEST arm every path tests change_port before the loop continues or the function returns: %s' % ok, rp.loc(cp[0]) if cp else '')
